@@ -137,6 +137,8 @@ def run(tier):
         if k == "rows":
             v = num(o["rows"][0][idx]) if o["rows"] else None
             return {"k": "val", "v": enc(v)} if v is not None else {"k": "null", "v": enc(0)}
+        if k == "error" and "cannot handle source type" in (o.get("msg") or ""):
+            return {"k": "unsupported", "v": enc(0)}
         return {"k": "err" if k == "error" else (k or "missing"), "v": enc(0)}
     lines = []
     for i, (c, o) in enumerate(zip(cases, obs)):
